@@ -107,3 +107,108 @@ Definition rd_col_page (selfmade : bool) (cd : coldesc) (dic : option (list valu
   | None => ROk (map Some vals)                                    (* piece[:] = ... *)
   | Some lv => of_opt "boolean index did not match" (cells_of (cd_maxdef cd) lv vals [])   (* part[defi == max_defi] = ... *)
   end.
+
+(* ==== v2 ===========================================================================================
+   IMPL MODEL of core.read_data_page_v2 for a flat column (max_rep = 0), no row filter, not read as a
+   categorical: the cells the call assigns to assign[num : num + num_values].
+   Statement by statement where it matters:
+   * encodings outside {PLAIN_DICTIONARY, RLE_DICTIONARY, RLE, PLAIN, DELTA_BINARY_PACKED} raise
+     NotImplementedError;
+   * `size = compressed_page_size - rl - dl`, values start at `tell + dl + rl` (infile.seek(data));
+   * the definition levels are decoded ONLY when max_def > 0 and the header's num_nulls > 0 (the header
+     is trusted otherwise), with the hybrid reader bounded by definition_levels_byte_length;
+   * is_compressed None means True; the values are decompressed with the chunk codec only then;
+   * PLAIN has three paths: `into0` (values copied bytewise into the output: the byte count must be
+     exactly n_values * itemsize, otherwise numpy raises), decompress-into, and read_plain + scatter;
+     which one is taken depends on dtype facts abstracted here as the flag `inplace` (converts_inplace
+     and equal item sizes, no NULL, not a time/object dtype);
+   * dictionary pages: width byte (0 when there is no value), width 0 -> all-zero indices, hybrid otherwise,
+     `dic[out]`; RLE booleans: 4 length bytes skipped, width 1;
+   * DELTA_BINARY_PACKED asserts num_nulls == 0 (AssertionError = refusal);
+   * scatter: with NULLs the non-null values go to the positions whose level is the maximum.
+   Native decoders and cramjam are represented as in the v1 model (spec decoders, `decompress`).      *)
+Section V2.
+Variable decompress : Z -> N -> bytes -> option bytes.
+
+Definition scatter2 (maxdef : N) (lv : option (list N)) (vals : list value) : rs (list (option value)) :=
+  match lv with
+  | None => ROk (map Some vals)
+  | Some l => of_opt "boolean index did not match" (cells_of maxdef l vals [])
+  end.
+
+Definition rd_page_v2 (inplace : bool) (cd : coldesc) (dic : option (list value)) (codec : Z) (h : dph2)
+  (usize csize : N) (payload : bytes) : rs (list (option value)) :=
+  let e := d2_enc h in
+  if negb ((e =? E_PLAIN_DICT) || (e =? E_RLE_DICT) || (e =? E_RLE) || (e =? E_PLAIN) || (e =? E_DELTA))%Z
+  then RUns "NotImplementedError" else
+  let! n := z2n "negative num_values" (d2_nvals h) in
+  let! nn := z2n "negative num_nulls" (d2_nnulls h) in
+  let! dl := z2n "negative definition_levels_byte_length" (d2_dlen h) in
+  let! rl := z2n "negative repetition_levels_byte_length" (d2_rlen h) in
+  let size := csize - rl - dl in
+  let n_values := n - nn in
+  let! lv := (if negb (cd_maxdef cd =? 0) && negb (nn =? 0) then
+                match hyb_dec false (N.size (cd_maxdef cd)) n (takeN dl payload) with
+                | Some (l, _) => ROk (Some l)
+                | None => RBad "level reader ran out of data"
+                end
+              else ROk None) in
+  let body := takeN size (dropN (dl + rl) payload) in                 (* infile.seek(data); read_size() *)
+  let comp := match d2_iscomp h with Some false => false | _ => true end in
+  let ups := usize - dl - rl in
+  let raw_of (b : bytes) : rs bytes :=
+    if comp && negb (codec =? 0)%Z then of_opt "decompression failed" (decompress codec ups b) else ROk b in
+  if (e =? E_PLAIN)%Z then
+    if inplace && (nn =? 0) then
+      (* into0 / into: the decoded bytes are written over the output slice *)
+      let! raw := raw_of body in
+      match num_width (cd_type cd) with
+      | Some k =>
+        if lenN raw =? k * n_values then
+          match plain_dec (cd_type cd) (cd_tlen cd) n_values raw with
+          | Some (vs, _) => ROk (map Some vs)
+          | None => RBad "unreachable"
+          end
+        else RBad "ValueError: could not broadcast input array"
+      | None => RBad "in-place path on a type without fixed width"
+      end
+    else
+      let! raw := raw_of body in
+      match plain_dec (cd_type cd) (cd_tlen cd) n_values raw with
+      | Some (vs, _) => scatter2 (cd_maxdef cd) lv vs
+      | None => RBad "read_plain: buffer is smaller than requested size"
+      end
+  else if (e =? E_RLE)%Z then
+    let! raw := raw_of body in
+    match hyb_dec false 1 n_values (dropN 4 raw) with                    (* pagefile.seek(4, 1); bit_width = 1 *)
+    | Some (bs, _) => scatter2 (cd_maxdef cd) lv (map VNum bs)
+    | None => RBad "hybrid reader ran out of data"
+    end
+  else if ((e =? E_PLAIN_DICT) || (e =? E_RLE_DICT))%Z then
+    let! raw := raw_of body in
+    let! ix := (if n_values =? 0 then ROk []
+                else match raw with
+                     | [] => RBad "read_byte past the end"
+                     | w :: r =>
+                       if w =? 0 then ROk (repN 0 n_values [])
+                       else match hyb_dec false w n_values r with
+                            | Some (ix, _) => ROk ix
+                            | None => RBad "hybrid reader ran out of data"
+                            end
+                     end) in
+    match dic with
+    | Some dd => let! vs := of_opt "IndexError: dic[out]" (lookup_all dd ix []) in scatter2 (cd_maxdef cd) lv vs
+    | None => RBad "TypeError: 'NoneType' object is not subscriptable"
+    end
+  else (* DELTA_BINARY_PACKED *)
+    if negb (nn =? 0) then RBad "AssertionError: null delta-int not implemented" else
+    let! raw := raw_of body in
+    match int_bits (cd_type cd) with
+    | Some bits =>
+      match delta_dec bits raw with
+      | Some (zs, _) => ROk (map (fun z => Some (VNum (of_signed bits z))) (takeN n zs))
+      | None => RBad "delta reader ran out of data"
+      end
+    | None => RBad "delta on a non-integer column"
+    end.
+End V2.
